@@ -36,12 +36,16 @@
      MUnenc       completes successfully with a result the client serializer cannot encode (e.g. a
                   float +Inf under JSON): the encoding error is the answer - on the front
                   (handler.go Process) and, REPAIRED (hooks/C02-fix-forwarded-marshal-error.patch),
-                  on a back-end (ProcessForwardMsg ignored the error and relayed an empty success) *)
+                  on a back-end (ProcessForwardMsg ignored the error and relayed an empty success)
+     MEncPanic    completes successfully with a result whose encoding PANICS (a user MarshalJSON that
+                  dereferences nil): SafeCall's recover completes the request with an error
+     MEchoLater / MUnencLater   as MEcho / MUnenc, but the handler completes in a later turn of its
+                  service (asynchronous completion) *)
 From Cell2V Require Import Common.Tac Common.ListX Common.AList.
 
 Inductive meth :=
 | MEcho | MSetKey (v : Z) | MFail | MBoom | MNever | MNote | MNoMethod | MNoGroup | MBadPayload
-| MUnenc.
+| MUnenc | MEncPanic | MEchoLater | MUnencLater.
 
 Inductive route :=
 | RT (ty : Z) (m : meth)        (* well-formed  type.group.method *)
@@ -57,7 +61,17 @@ Inductive op :=
 | OReq (c mid : Z) (r : route) (tag : Z)
 | ONotify (c : Z) (r : route) (tag : Z)
 | OAdvance                            (* virtual clock + 31 s, expiry scan *)
-| OClose (c : Z).
+| OClose (c : Z)
+(* the pomelo protocol state machine of an established connection: a client may send a Handshake
+   packet again at any moment (the session drops back to the handshake state until the next
+   HandshakeAck) and heartbeats at any moment - also while requests are outstanding.  None of them
+   has any effect on the responses the server owes (ResponseMID only refuses closed sessions).
+   Data packets sent between a re-handshake and its ack are ignored by the server before they
+   become requests (session.go processPacket): the harness removes them from the history
+   (Corr.prep). *)
+| OHandshake (c : Z)
+| OAck (c : Z)
+| OHeartbeat (c : Z).
 
 Inductive ev := EOp (o : op) | EDeliver (k : nat).
 
@@ -73,15 +87,15 @@ Inductive completion := CReply | CErr | CSilent.
 
 Definition completes (m : meth) : completion :=
   match m with
-  | MEcho | MSetKey _ => CReply
+  | MEcho | MSetKey _ | MEchoLater => CReply
   | MNever => CSilent
-  | MFail | MBoom | MNote | MNoMethod | MNoGroup | MBadPayload | MUnenc => CErr
+  | MFail | MBoom | MNote | MNoMethod | MNoGroup | MBadPayload | MUnenc | MEncPanic | MUnencLater => CErr
   end.
 
 (* is the user's handler function entered? ([isreq]: the call carries a completion) *)
 Definition invoked (m : meth) (isreq : bool) : bool :=
   match m with
-  | MEcho | MSetKey _ | MFail | MBoom | MNever | MUnenc => true
+  | MEcho | MSetKey _ | MFail | MBoom | MNever | MUnenc | MEncPanic | MEchoLater | MUnencLater => true
   | MNote => negb isreq        (* request to a notify-shaped method: refused before the call *)
   | MNoMethod | MNoGroup | MBadPayload => false
   end.
@@ -238,7 +252,7 @@ Section Routing.
   Definition op_step (s : st) (o : op) : st :=
     let s1 := mkSt (conn_step (conns s) o) (fwd s) (out s) (hlog s) in
     match o with
-    | OConnect _ _ _ | OClose _ => s1
+    | OConnect _ _ _ | OClose _ | OHandshake _ | OAck _ | OHeartbeat _ => s1
     | OReq c mid r tag => if is_open (conns s) c then request s1 c mid r tag else s
     | ONotify c r tag => if is_open (conns s) c then request s1 c 0 r tag else s
     | OAdvance => advance s
